@@ -1204,7 +1204,7 @@ def run_constructor(c):
                 out['violation'] = (f"{label} constructor writes to an array passed to it "
                                     f"(write-protected input): {type(ex).__name__}: {ex}")[:400]
                 return out
-            if before is not None and exotic and isinstance(ex, REJECTIONS):
+            if before is not None and exotic and isinstance(ex, REJECTIONS) and not _call_mistake(ex):
                 # an unusual but valid array may be refused - as long as it is left alone
                 out['ran'] = False
                 out['rejected'] = f'{type(ex).__name__}: {ex}'[:200]
@@ -1271,6 +1271,13 @@ def run_constructor(c):
 PLAIN_LUTS = ('LUT', 'VOILUT', 'ModalityLUT', 'PresentationLUT')
 
 
+def _call_mistake(ex):
+    """A TypeError about the call itself is a mistake of this harness, never a refusal of the library."""
+    m = str(ex)
+    return isinstance(ex, TypeError) and ('positional argument' in m or 'keyword argument' in m or
+                                          'multiple values for' in m)
+
+
 def _viol(msg):
     return Err('VIOLATION ' + msg[:400])
 
@@ -1330,7 +1337,7 @@ def run_lut(c):
                     contains_recognizable_visual_features=False,
                     real_world_value_mappings=[[hd.pm.RealWorldValueMapping(
                         'l', 'e', codes.UCUM.NoUnits, (0, 65535), slope=1, intercept=0)]],
-                    palette_color_lut_transformation=tf)
+                    window_center=1.0, window_width=2.0, palette_color_lut_transformation=tf)
             elif c.get('holder') == 'pr':
                 target = hd.pr.PseudoColorSoftcopyPresentationState(
                     synth.ct_series(1, 4, 4), hd.UID(), 1, hd.UID(), 1, 'm', 'mm', '1', 'sn', tf, 'LABEL')
@@ -1342,6 +1349,8 @@ def run_lut(c):
             if target is tf and c['via'] != 'segmented':
                 got = tf.red_lut.lut_data
     except REJECTIONS as ex:
+        if _call_mistake(ex):
+            raise
         if 'read-only' in str(ex):
             return _viol(f'{what} writes to the array passed to it: {ex}')
         if before is not None:
@@ -1409,9 +1418,12 @@ def run_pyr_ids(c):
     try:
         try:
             segs = hd.seg.create_segmentation_pyramid(
-                sources, arrays, 'BINARY', [synth.seg_description(1)], series_number=1, manufacturer='m',
+                sources, arrays, 'BINARY', [synth.seg_description(1)],
+                series_instance_uid=None if c.get('base', 0) % 2 else hd.UID(), series_number=1, manufacturer='m',
                 manufacturer_model_name='mm', software_versions='1', device_serial_number='sn', **kw)
         except REJECTIONS as ex:
+            if _call_mistake(ex):
+                raise
             return Err(type(ex).__name__)
     finally:
         secrets.randbelow = orig
@@ -1456,6 +1468,8 @@ def run_pm_native(c):
                                  contains_recognizable_visual_features=False, real_world_value_mappings=maps,
                                  window_center=1.0, window_width=2.0)
     except REJECTIONS as ex:
+        if _call_mistake(ex):
+            raise
         if 'read-only' in str(ex):
             return _viol(f'ParametricMap writes to the pixel array passed to it: {ex}')
         v = _unchanged(before, [arr], 'ParametricMap')
@@ -1550,7 +1564,7 @@ def gen_cases(rng, tier):
     cases += _gen_lut_cases(rng, n)
     cases += _gen_pyr_id_cases(rng, n)
     cases += _gen_pm_native_cases(rng, n)
-    return [c for c in cases if _drawn(c)]
+    return cases
 
 
 def _ctor(rng, target, opt, i=0):
@@ -1607,43 +1621,9 @@ def _gen_multi_cases(rng, n):
     return cases
 
 
-def _recorded(fid):
-    """A defect of the code as it is that this check found is drawn once it is listed in
-    KNOWN_FINDINGS.json (open: reported as KNOWN-FINDING, fixed: must pass)."""
-    return bool(os.environ.get('C20_ALL_FINDINGS')) or any(f.get('id') == fid for f in common.load_findings(PROPERTY))
-
-
-def _finding_lut_unpadded(c):
-    # content.py LUT.__init__ / SegmentedPaletteColorLUT.__init__: 8-bit table, odd number of bytes, no pad
-    if c.get('kind') != 'lut' or c['bits'] != 8:
-        return False
-    if c['cls'] in PLAIN_LUTS:
-        return len(c['r']) % 2 == 1
-    return c.get('via') == 'segmented' and len(c['r']) % 2 == 1
-
-
-def _finding_lut_byteorder(c):
-    # LUT / PaletteColorLUT / SegmentedPaletteColorLUT: lut_data.tobytes() of a non-native 16-bit array
-    return c.get('kind') == 'lut' and c['bits'] == 16 and 'swapped' in c.get('layout', '') and \
-        c.get('via') not in ('colors',)
-
-
-def _finding_sc_unpadded(c):
-    # sc/sop.py SCImage: a native 8-bit frame with an odd number of bytes is stored without pad byte
-    if not str(c.get('kind', '')).startswith('ctor') or c.get('target') != 'sc':
-        return False
-    import random
-    kind, rows, cols = _sc_shape(random.Random(c['seed']), c.get('opt') or {})
-    return kind != 'u16' and (rows * cols * (3 if kind == 'rgb' else 1)) % 2 == 1
-
-
-FINDINGS = {'D93': _finding_lut_unpadded, 'D94': _finding_lut_byteorder, 'D95': _finding_sc_unpadded}
-
-
-def _drawn(c):
-    """Cases that hit a defect this check found in the code as it is are drawn once the defect is recorded."""
-    fid = next((k for k, pred in FINDINGS.items() if pred(c)), None)
-    return fid is None or _recorded(fid)
+FINDINGS = {}      # no open C20 finding: D93 (LUT tables unpadded / byte-swapped), D96 (odd-length native 8-bit
+#                    PixelData of SC / legacy images) and D97 (pseudo-colour state refused VOI transformations),
+#                    all found by the strata below, were fixed in /repo; their cases are part of the default draw
 
 
 def _gen_lut_cases(rng, n):
@@ -1666,8 +1646,8 @@ def _gen_lut_cases(rng, n):
                     continue
                 if n == 1 and k in (1, 2, 8, 257) and via != 'luts':
                     continue
-                holder = rng.choice([None, None, 'seg', 'pm', 'pr']) if via in ('luts', 'combined') else \
-                    rng.choice([None, 'seg']) if via == 'colors' else None
+                holder = rng.choice([None, None, 'seg', 'pm'] + (['pr'] if bits == 16 else [])) \
+                    if via in ('luts', 'combined') else rng.choice([None, 'seg']) if via == 'colors' else None
                 cases.append({'kind': 'lut', 'cls': 'PaletteColorLUTTransformation', 'via': via, 'bits': bits,
                               'first': 0 if holder else rng.choice([0, 1]), 'r': col(bits, k), 'g': col(bits, k),
                               'b': col(bits, k), 'holder': holder,
@@ -1820,8 +1800,8 @@ def coq_term(c):
     if k == 'uid_valid':
         return f"(run_uid_valid {zl(c['s'])})"
     if k == 'lut':
-        if any(pred(c) for pred in FINDINGS.values()) or c.get('via') == 'segmented':
-            return None        # reported defect of the code as it is / segmented tables: oracle only
+        if c.get('via') == 'segmented' or (c.get('via') == 'combined' and 'swapped' in c.get('layout', '')):
+            return None        # segmented tables, and the refusal of a non-native combined array: oracle only
         if c['cls'] == 'PaletteColorLUT':
             return f"(run_palette_lut {c['bits']} {zlit(c['first'])} {zl(c['r'])})"
         if c['cls'] in PLAIN_LUTS:
